@@ -531,9 +531,14 @@ cannot parse duration string `%s'", argi->alt_inc_arg);
 				goto out;
 			}
 		} while (__strpdtdur_more_p(&st));
-		/* assign values */
-		clo.altite = st.durs;
-		clo.naltite = st.ndurs;
+		/* assign values, nought deactivates alternative incrementing,
+		 * we'd step on the spot forever otherwise */
+		if (!__durstack_naught_p(st.durs, st.ndurs)) {
+			clo.altite = st.durs;
+			clo.naltite = st.ndurs;
+		} else if (st.durs != NULL) {
+			__strpdtdur_free(&st);
+		}
 	}
 
 	switch (argi->nargs) {
